@@ -229,7 +229,7 @@ class SymBool(Proxy):
     return SymBool(self.term != _z3bool(o))
 
   def __hash__(self):
-    return id(self)
+    raise Unsupported("hash of a symbolic boolean")
 
   def implies(self, o):
     return SymBool(z3.Implies(self.term, _z3bool(o)))
@@ -530,7 +530,8 @@ class _SymNum(Proxy):
     self.term = term
 
   def __hash__(self):
-    return id(self)
+    # a set / dict keyed by symbolic numbers would merge or separate entries by object identity, not by value: unsound
+    raise Unsupported("hash of a symbolic number (set / dict keyed by symbolic values is not modelled)")
 
   def __repr__(self):
     return f"{type(self).__name__}({self.term})"
@@ -910,6 +911,70 @@ class vc_Fraction(metaclass=_ShimMeta):
     if denominator is None:
       return fractions.Fraction(numerator)
     return fractions.Fraction(numerator, denominator)
+
+
+class vc_set(set, metaclass=_ShimMeta):
+  """`set` inside rewritten modules.  Concrete elements live in the real set; symbolic numbers are kept in a side list and
+  compared by VALUE on insertion (each comparison forks), so that on every path the collection holds exactly the distinct
+  values a real set would hold.  Only add / iteration / len / sorted() / membership are supported for symbolic elements."""
+  __real__ = set
+
+  def __init__(self, it=()):
+    set.__init__(self)
+    self._sym = []
+    for x in it:
+      self.add(x)
+
+  def add(self, x):
+    if _real_isinstance(x, Proxy):
+      if not _real_isinstance(x, _SymNum):
+        raise Unsupported("symbolic non-number in a set")
+      for y in list(set.__iter__(self)) + self._sym:
+        if x == y:          # forks; on the `equal` branch the value is already present
+          return
+      self._sym.append(x)
+      return
+    for y in self._sym:
+      if y == x:
+        return
+    set.add(self, x)
+
+  def __iter__(self):
+    yield from set.__iter__(self)
+    yield from self._sym
+
+  def __len__(self):
+    return set.__len__(self) + len(self._sym)
+
+  def __contains__(self, x):
+    if _real_isinstance(x, Proxy) or self._sym:
+      for y in self:
+        if x == y:
+          return True
+      return False
+    return set.__contains__(self, x)
+
+  def __bool__(self):
+    return len(self) > 0
+
+
+def _guard_set_method(name):
+  real = getattr(set, name)
+
+  def guarded(self, *a, **k):
+    if getattr(self, "_sym", None) or any(_real_isinstance(x, Proxy) for x in a):
+      raise Unsupported(f"set.{name} on a set holding symbolic values")
+    return real(self, *a, **k)
+  guarded.__name__ = name
+  return guarded
+
+
+for _n in ("update", "union", "intersection", "difference", "symmetric_difference", "discard", "remove", "pop", "copy", "clear",
+           "issubset", "issuperset", "isdisjoint", "intersection_update", "difference_update", "symmetric_difference_update",
+           "__or__", "__and__", "__sub__", "__xor__", "__ior__", "__iand__", "__isub__", "__ixor__", "__eq__", "__ne__", "__le__",
+           "__lt__", "__ge__", "__gt__", "__ror__", "__rand__", "__rsub__", "__rxor__"):
+  setattr(vc_set, _n, _guard_set_method(_n))
+vc_set.__hash__ = None
 
 
 _SHIMS = (vc_int, vc_float, vc_Fraction)
